@@ -93,6 +93,11 @@ def check(prop: str, tier: str, seed: int, repo: str | None = None, write: bool 
     for o in knowns:
         k = report.known_match(o, prop, known)
         _print(f"KNOWN-FINDING: property={prop} {k.get('id', '')} {o.oid} {o.func}: {o.construct} -- {o.detail}")
+    for k in known:
+        # genuine defects that were demonstrated against the real code but that no rule of this family decides
+        # (scenario-level liveness): listed so that they are not forgotten, they suppress nothing
+        if k.get("status") == "known" and k.get("report_always") and prop in k.get("properties", [k.get("property")]):
+            _print(f"KNOWN-FINDING: property={prop} {k.get('id', '')} (demonstrated, not decided by a rule) {k['what']}")
     for o in unknowns:
         _print(f"ANALYSIS-ERROR: property={prop} {o.line()}")
     for o in violations:
